@@ -111,7 +111,21 @@ func (r *Registry) LineNumber(templateName string, node ast.Node) int {
 		log.Println("template not found:", templateName)
 		return 0
 	}
-	return 1 + strings.Count(src[:node.Position()], "\n")
+	return 1 + strings.Count(src[:clampPos(src, node)], "\n")
+}
+
+// clampPos returns the position of the node, limited to the source.  (The
+// pieces a {msg} body is split into get positions computed from the end of the
+// text they came from, which may lie beyond the end of the file.)
+func clampPos(src string, node ast.Node) int {
+	var pos = int(node.Position())
+	if pos < 0 {
+		return 0
+	}
+	if pos > len(src) {
+		return len(src)
+	}
+	return pos
 }
 
 // ColNumber computes the column number in the relevant line of input source for the given node
@@ -122,7 +136,8 @@ func (r *Registry) ColNumber(templateName string, node ast.Node) int {
 		log.Println("template not found:", templateName)
 		return 0
 	}
-	return 1 + int(node.Position()) - strings.LastIndex(src[:node.Position()], "\n")
+	var pos = clampPos(src, node)
+	return 1 + pos - strings.LastIndex(src[:pos], "\n")
 }
 
 // Filename identifies the filename containing the specified template
